@@ -31,7 +31,13 @@
 #include	"ALAC/ALACBitUtilities.h"
 
 #define		ALAC_MAX_FRAME_SIZE		8192
+#if defined (LIBSNDFILE_VERIF) && defined (LIBSNDFILE_VERIF_ALAC_BYTE_BUFFER_SIZE)
+/* Verification hook: a smaller per-channel packet buffer (the bounded model
+** checker cannot hold the 1 MB block). Off in every normal build. */
+#define		ALAC_BYTE_BUFFER_SIZE	LIBSNDFILE_VERIF_ALAC_BYTE_BUFFER_SIZE
+#else
 #define		ALAC_BYTE_BUFFER_SIZE	0x20000
+#endif
 #define		ALAC_MAX_CHANNEL_COUNT	8	// Same as kALACMaxChannels in /ALACAudioTypes.h
 
 typedef struct
